@@ -81,6 +81,34 @@ def keyword_neighbourhood():
                 yield bi, pos, ki, stmts.join_tokens(toks[:pos] + [kw] + toks[pos:])
 
 
+LEX_SEEDS = [
+    "1e-5", "1.5E+10", "0xFF", "0b101", "1_000", "1_2E+1_0", "5.e3", ".5e1", "1e5-3", "7E-x", "3e+(1)", "1.2.3", "1..2", "12BD", "1L", "1.5f",
+    "'it''s'", r"'a\'b'", r"e'\n'", "x'AB'", "b'01'", "N'x'", r"r'\d'", "U&'\\0041'", "_utf8'x'", ", '", "'a\nb'",
+    "$$a$$", "$t$a$t$", "$1", "${x}", "/* c */", "/*+ h */", "/* a /* b */ c */", "-- c\n", "# c\n", "// c\n",
+    '"a""b"', "`a``b`", "[a]]b]", "@v", "@@g", ":p", "?", "{{ x }}", "{% if %}", "{# c #}", "1::INT", "a->>'k'", "a#>>'{k}'",
+    "<=>", "||/", "|/", "!~*", "@>", "<@", "?|", "?&", "#-", "^@", "&&", "<->", ":=", "=>", "->", "..", "a.b.c.d", "a . b", "a.*", "t.\"x\"",
+]
+LEX_CONTEXTS = ["{}", "SELECT {}", "SELECT {} FROM t", "SELECT a FROM t WHERE b = {} AND c", "SELECT {}a", "SELECT 1{}", "SELECT ({}", "{} {}"]
+
+
+def lexeme_zoo():
+    """character-level damage inside single lexemes (numbers, strings, comments, quoted names, parameters, operators):
+    every proper prefix, every suffix and every one-character deletion of each seed lexeme, in a few contexts.
+    The lexeme-level edits above never cut a lexeme in two."""
+    seen = set()
+    for li, lex in enumerate(LEX_SEEDS):
+        variants = [lex]
+        variants += [lex[:j] for j in range(1, len(lex))]
+        variants += [lex[j:] for j in range(1, len(lex))]
+        variants += [lex[:j] + lex[j + 1:] for j in range(len(lex))]
+        for v in variants:
+            if not v.strip() or v in seen:
+                continue
+            seen.add(v)
+            for ci, c in enumerate(LEX_CONTEXTS):
+                yield li, ci, c.replace("{}", v)
+
+
 def type_zoo(ctx, all_d, stride):
     import sqlglot
     from sqlglot.errors import SqlglotError, ErrorLevel
@@ -293,6 +321,28 @@ def worker(ctx):
         ctx.count("keyword_neighbourhood_inputs")
         rng = _random.Random(f"kw:{n}")
         run_input(ctx, text, [all_d[(bi * 5 + ki) % len(all_d)]], rng, f"keyword:{bi}:{pos}")
+    # ---- (1d) lexeme zoo: damaged lexemes; tokenized in every dialect, parsed / generated in three rotating ones ----
+    import sqlglot as _sg
+
+    lstride = spec.get("lex_stride", 1)
+    for n, (li, ci, text) in enumerate(lexeme_zoo()):
+        if n % ctx.nshards != ctx.shard or (n // ctx.nshards) % lstride:
+            continue
+        if ctx.expired():
+            break
+        ctx.count("lexeme_zoo_inputs")
+        rng = _random.Random(f"lex:{n}")
+        lim = work_limit(len(text) + 8)
+        for d in all_d:
+            st, val = B.run(lambda: _sg.tokenize(text, read=d), lim)
+            ctx.count("api_calls")
+            ctx.count("evaluations")
+            if st == "budget":
+                ctx.violation(f"work-budget-exceeded:tokenize:{d or 'base'}", {"sql": text, "dialect": d or "base", "limit": lim},
+                              {"sql": text, "dialect": d or "base", "level": "IMMEDIATE", "origin": "lexeme-zoo"})
+                break
+        else:
+            run_input(ctx, text, [all_d[(n * 7 + j * 11) % len(all_d)] for j in range(3)], rng, f"lexeme:{li}:{ci}")
     # ---- (1c) type zoo: every type keyword x 0..4 parameters, parsed in a few dialects, written to every dialect ----
     type_zoo(ctx, all_d, spec.get("zoo_stride", 1))
     # ---- (2) seeded -------------------------------------------------------------------
@@ -343,6 +393,8 @@ def worker(ctx):
         if i % 1999 == 0:
             ctx.sample({"text": text, "origin": origin})
     ctx.extra["budget_calls"] = B.calls
+    ctx.count("watchdog_interrupts(call ran 5 s)", B.stalls)
+    ctx.count("watchdog_interrupts_confirmed_by_loop_count", B.stalls_confirmed)
 
 
 def conclude(agg):
